@@ -197,7 +197,11 @@ Definition set_transaction_mode (id : nat) : M :=
      (fun s => when (shape_ddl (sess s))
                  (dbcall (KExecute SFkGet) id ;;
                   (fun s1 => let fk := p_fk s1 in
-                             (when fk (dbcall (KExecute SFkOff) id) ;; upd (set_k_fk fk) ;; (fun s2 => assert_ (k_imm s2) s2)) s1)) s) ;;
+                             (when fk (dbcall (KExecute SFkOff) id) ;;
+                              (* since /repo 78a42e8: `if cache.saved_fk_state is None: cache.saved_fk_state = bool(fk)`.  k_fk = the saved state
+                                 is True; None and False are both k_fk = false: a saved False can only come from a connection whose
+                                 foreign keys were already off, and then every later reading in this cache is False as well *)
+                              upd (fun s2 => set_k_fk (k_fk s2 || fk) s2) ;; (fun s2 => assert_ (k_imm s2) s2)) s1)) s) ;;
      (fun s => when (k_imm s) (dbcall (KExecute SBegin) id ;; upd (set_k_intxn true)) s))
     (fun s => when (k_imm s && negb (k_intxn s)) release_lock s).
 
